@@ -9,21 +9,35 @@ use crate::refs::{self, Want, R};
 use num::traits::{One, Signed, Zero};
 use proptest::prelude::*;
 
+fn ma_spec_of(kind: usize, j: usize, si: usize, oi: usize, n: usize) -> Spec {
+    let sig = [0.5, 1.0, 2.0, 4.0, 6.0, 8.0, 12.0][si];
+    let off = [0.0, 0.25, 0.5, 0.85, 1.0][oi];
+    match kind {
+        0 => Spec::Sma(echo(), n),
+        1 => Spec::Ema(echo(), n),
+        2 => Spec::EmaAlpha(echo(), n, (n as f64 + 1.0) * (j as f64 + 1.0) / 8.0),
+        3 => Spec::Alma(echo(), n),
+        _ => Spec::AlmaCustom(echo(), n, sig, off),
+    }
+}
 fn ma_spec() -> impl Strategy<Value = (Spec, usize)> {
     // (spec, kind) kind: 0 Sma 1 Ema 2 EmaAlpha 3 Alma 4 AlmaCustom
-    (0usize..5, 0usize..8, 0usize..7, 0usize..5).prop_map(|(kind, j, si, oi)| (kind, j, si, oi)).prop_flat_map(|(kind, j, si, oi)| {
-        (1usize..=40).prop_map(move |n| {
-            let sig = [0.5, 1.0, 2.0, 4.0, 6.0, 8.0, 12.0][si];
-            let off = [0.0, 0.25, 0.5, 0.85, 1.0][oi];
-            let s = match kind {
-                0 => Spec::Sma(echo(), n),
-                1 => Spec::Ema(echo(), n),
-                2 => Spec::EmaAlpha(echo(), n, (n as f64 + 1.0) * (j as f64 + 1.0) / 8.0),
-                3 => Spec::Alma(echo(), n),
-                _ => Spec::AlmaCustom(echo(), n, sig, off),
-            };
-            (s, kind)
-        })
+    (0usize..5, 0usize..8, 0usize..7, 0usize..5).prop_map(|(kind, j, si, oi)| (kind, j, si, oi)).prop_flat_map(|(kind, j, si, oi)| (1usize..=40).prop_map(move |n| (ma_spec_of(kind, j, si, oi, n), kind)))
+}
+/// fz_single: one of the moving averages, then the clause (bounds, definition at Q / f64, gated, affine) and the stream
+pub fn fuzz_decode(u: &mut arbitrary::Unstructured) -> Option<(String, Case)> {
+    let kind = u.int_in_range(0..=4usize).ok()?;
+    let spec = ma_spec_of(kind, u.int_in_range(0..=7usize).ok()?, u.int_in_range(0..=6usize).ok()?, u.int_in_range(0..=4usize).ok()?, 1 + u.int_in_range(0..=39usize).ok()?);
+    let which = u.int_in_range(0..=4u8).ok()?;
+    let (k, p, q, r) = (1 + u.int_in_range(0..=8i64).ok()?, 1 + u.int_in_range(0..=63i64).ok()?, 1 + u.int_in_range(0..=63i64).ok()?, u.int_in_range(-4096..=4096i64).ok()?);
+    let xs = crate::fuzzdec::stream(u, false, 160);
+    let def = |sc: &str| if kind == 0 { "C04/bounds/Q".to_string() } else { format!("C04/{}/definition/{sc}", if kind <= 2 { "Ema" } else { "Alma" }) };
+    Some(match which {
+        0 => ("C04/bounds/Q".into(), Case::of(spec, xs)),
+        1 => (def("Q"), Case::of(spec, xs)),
+        2 => (def("f64"), Case::of(spec, xs)),
+        3 => ("C04/gated/Q".into(), Case { spec: Some(spec), xs, ints: vec![k], a: Rat(1, 1), ..Default::default() }),
+        _ => ("C04/affine/Q".into(), Case { spec: Some(spec), xs, a: Rat(p, q), b: Rat(r, 8), ..Default::default() }),
     })
 }
 fn vname(s: &Spec) -> &'static str {
